@@ -4,7 +4,9 @@
 (* clock) must be behaviours of Topo.tla.                                   *)
 (*                                                                          *)
 (* Trace = << header, event, event, ... >>, every record with the same      *)
-(* fields:  a, s, p, d, lk (a link), n, np, wires, phys (header only),      *)
+(* fields:  a, s, p, d, lk (a link), n, np, wires, phys, to, flow, drop,     *)
+(* eat, nofl, hold (header only: the net and the options the components     *)
+(* were launched with),                                                     *)
 (* adj, evs, nf (observation after the step), rx, storm (Flood only), wf.   *)
 (* An event is matched by the Topo action of the same name, with the        *)
 (* observation as the controller's response R; the step is taken iff        *)
@@ -26,6 +28,10 @@ TrInit ==
   /\ bad = "ok"
   /\ TLCSet(tid, 1)
   /\ net = [n |-> Hd(tid).n, np |-> Hd(tid).np, wires |-> ToSet(Hd(tid).wires)]
+  /\ cfg = [to |-> Hd(tid).to, flow |-> Hd(tid).flow, drop |-> Hd(tid).drop, eat |-> Hd(tid).eat,
+            nofl |-> Hd(tid).nofl, hold |-> Hd(tid).hold]
+  \* (environment assumptions of Topo.tla: a history outside them is the generator's mistake)
+  /\ Assert(cfg.to >= 1 /\ CfgFits(cfg, net), <<"history outside the environment assumptions", tid>>)
   /\ phys = ToSet(Hd(tid).phys)
   /\ phys \subseteq net.wires
   /\ conn = {}
@@ -33,6 +39,7 @@ TrInit ==
   /\ nf = {}
   /\ age = [w \in net.wires |-> Cap]
   /\ quiet = Cap
+  /\ since = [s \in Switches |-> HoldCap]
   /\ last = NoObs
   /\ hist = <<>>
 
@@ -61,7 +68,7 @@ Ok1 == l' = l + 1 /\ bad' = bad /\ UNCHANGED tid
 \* (Permitted == Reason(...) = "ok")
 TrCtl(e, ph, cn, dt, q, env, Do(_)) ==
   LET R == Obs(e)
-      why == Reason(R, ph, cn, NewAge(ph, cn, dt), q, dt, LiveSet(phys, conn))
+      why == Reason(R, ph, cn, NewAge(ph, cn, dt), q, dt, LiveSet(phys, conn), NewSince(cn, dt))
   IN IF ~e.wf THEN Stop("malformed-observation")
      ELSE IF why = "ok" THEN env /\ Do(R) /\ Ok1
      ELSE env /\ Do(R) /\ Note(why)
@@ -84,7 +91,7 @@ TrWire == LET e == Ev IN e.a \in {"Cut", "Restore"} /\
 \* violation itself has been reported at the step that produced the state)
 TrFlood == LET e == Ev IN e.a = "Flood" /\
              IF ~e.wf \/ Len(e.rx) # net.n THEN Stop("malformed-observation")
-             ELSE IF bad # "ok" /\ FloodReason(adj, conn, nf, nf) # "ok" THEN UNCHANGED vars /\ Ok1
+             ELSE IF bad # "ok" /\ FloodReasonM(adj, conn, nf, nf, since) # "ok" THEN UNCHANGED vars /\ Ok1
              ELSE IF e.storm = Storm(e.s, e.p) /\ (\A t \in Switches : e.rx[t] = Delivered(e.s, e.p)[t])
              THEN Flood(e.s, e.p) /\ Ok1
              ELSE Flood(e.s, e.p) /\ Note(IF e.storm THEN "flood-storm" ELSE "flood-delivery-mismatch")
@@ -103,5 +110,5 @@ Accepted == /\ PrintT(<<"TRACES-CHECKED", NT>>)
 \* evaluated in every matched state (consequences of the guards; a violation
 \* here would be an inconsistency of the specification itself)
 TrInv == bad = "ok" => /\ WithdrawnOnDisconnect /\ WithdrawnWhenSilent /\ Discovered
-                       /\ HostPortsFlood /\ ForestOK /\ Acyclic /\ Spanning /\ ExactlyOnce
+                       /\ HostPortsFlood /\ ForestOK /\ Acyclic /\ Spanning /\ ExactlyOnce /\ HoldDownEnds
 =============================================================================
